@@ -1,8 +1,11 @@
 (** C04 - Each target runs at most once, after its dependencies.
     Model: Runner/Model.v.  [spawned s] lists every goroutine creation so far; [nload]/[neval]/[nbody] count the
-    LoadTarget / Evaluate / body executions per label; [t_res t] are the results handed to a dependent. *)
+    LoadTarget / Evaluate / body executions per label; [t_res t] are the results handed to a dependent.
+    Project level (Runner/Proofs_C04p.v): [resolve] is Project.LoadTarget (label string -> target object);
+    [names_distinct resolve s]: the strings that reached the runner name pairwise different targets;
+    [loads_of]/[evals_of]/[bodies_of resolve s t]: the counters of target t summed over all labels it was requested under. *)
 From Coq Require Import List Arith Bool.
-From Dawn Require Import Runner.Model Runner.Lemmas Runner.Core Runner.Proofs_C04.
+From Dawn Require Import Runner.Model Runner.Lemmas Runner.Core Runner.Proofs_C04 Runner.Proofs_C04p.
 
 Theorem started_at_most_once : forall cfg s, reachable cfg s -> NoDup (spawned s).
 Proof. exact Proofs_C04.started_at_most_once. Qed.
@@ -39,3 +42,36 @@ Theorem run_result_is_root : forall cfg s r, reachable cfg s -> mainpc s = MDone
   st s (c_root cfg) = r /\ is_final r = true.
 Proof. exact Proofs_C04.run_result_is_root. Qed.
 Print Assumptions run_result_is_root.
+
+(* -- project level: once per label is once per target as far as the labels that reach the runner are distinct names -- *)
+
+Theorem one_goroutine_per_target : forall (resolve : label -> nat) cfg s, reachable cfg s -> names_distinct resolve s ->
+  NoDup (map resolve (spawned s)).
+Proof. exact Proofs_C04p.one_goroutine_per_target. Qed.
+Print Assumptions one_goroutine_per_target.
+
+Theorem once_per_target : forall (resolve : label -> nat) cfg s t, reachable cfg s -> names_distinct resolve s ->
+  loads_of resolve s t <= 1 /\ evals_of resolve s t <= 1 /\ bodies_of resolve s t <= 1.
+Proof. exact Proofs_C04p.once_per_target. Qed.
+Print Assumptions once_per_target.
+
+Theorem counted_labels_are_spawned : forall cfg s l, reachable cfg s -> 0 < nload s l + neval s l + nbody s l -> In l (spawned s).
+Proof. exact Proofs_C04p.counted_labels_are_spawned. Qed.
+Print Assumptions counted_labels_are_spawned.
+
+(* the hypothesis is needed: one target requested under two strings is loaded, evaluated and run twice (the
+   statement fails without [names_distinct]: dawn must hand the runner one spelling per target) *)
+Theorem two_spellings_run_twice :
+  exists s, reachable two_spellings s /\ finished s = true /\
+            loads_of same_target s 1 = 2 /\ evals_of same_target s 1 = 2 /\ bodies_of same_target s 1 = 2 /\
+            ~ NoDup (map same_target (spawned s)).
+Proof. exact Proofs_C04p.two_spellings_run_twice. Qed.
+Print Assumptions two_spellings_run_twice.
+
+(* [continues_after_deps] does not extend to the part of Evaluate before the request: a target that has been loaded and is
+   being evaluated (pc PExit1) may find its dependency not even started *)
+Theorem before_request_deps_unfinished :
+  exists s t, reachable gen_chain s /\ thr s 0 = Some t /\ t_pc t = PExit1 /\ neval s 0 = 1 /\
+              In 1 (deps gen_chain 0) /\ st s 1 = Idle /\ past_request (t_pc t) = false.
+Proof. exact Proofs_C04p.before_request_deps_unfinished. Qed.
+Print Assumptions before_request_deps_unfinished.
